@@ -107,7 +107,22 @@ func checkStored(w *world, path, what string, c tcase) (bad bool) {
 			bad = true
 		}
 		if err := refValid(s.Obj); err != nil {
-			viol("stored-invalid:"+path+":"+clauseOf(err)+":"+what, fmt.Sprintf("%+v: node %d stored object %s which is not valid: %v", c, s.Node, s.Obj.GetID(), err), c)
+			if path == "sealed-by-node" {
+				if perr := refPayload(s.Obj); perr != nil {
+					err = perr // the most telling complaint first
+				}
+			}
+			fp := "stored-invalid:" + path + ":" + clauseOf(err) + ":" + what
+			if path == "sealed-by-node" {
+				// what the node sealed is wrong in itself: class = the reference's complaint, digits stripped
+				fp = "stored-invalid:" + path + ":" + strings.Map(func(c rune) rune {
+					if c >= '0' && c <= '9' {
+						return -1
+					}
+					return c
+				}, strings.ReplaceAll(strings.ReplaceAll(err.Error(), ": ", ":"), " ", "-"))
+			}
+			viol(fp, fmt.Sprintf("%+v: node %d stored object %s which is not valid: %v", c, s.Node, s.Obj.GetID(), err), c)
 			bad = true
 		}
 	}
@@ -558,6 +573,92 @@ func runT(w *world, c tcase) {
 	}
 }
 
+// ---- U: the same (possibly mutated) object handed over as a RAW header on the session PUT path: the client drops the
+// ID and the signature, the node seals the member with the session key it holds. Whatever it seals and stores must still
+// satisfy the reference predicate, embedded parent headers included.
+func rawOf(o object.Object) object.Object {
+	h := *o.CutPayload()
+	h.ResetID()
+	h.SetSignature(nil)
+	h.SetSessionToken(nil)
+	return h
+}
+
+func sameRelations(a, b object.Object) bool {
+	af, aok := a.FirstID()
+	bf, bok := b.FirstID()
+	if aok != bok || af != bf || a.GetPreviousID() != b.GetPreviousID() || a.Type() != b.Type() {
+		return false
+	}
+	if (a.SplitID() == nil) != (b.SplitID() == nil) || (a.Parent() == nil) != (b.Parent() == nil) {
+		return false
+	}
+	if a.Parent() != nil && !bytes.Equal(a.Parent().Marshal(), b.Parent().Marshal()) {
+		return false
+	}
+	return true
+}
+
+func runU(w *world, c tcase) {
+	b := findBase(c.Base)
+	m := findMut(c.Mutation)
+	o := mutated(b, m)
+	h := rawOf(o)
+	tok := sessionToken(sessionSigner.Public(), ownerSigner)
+	payload := o.Payload()
+	w.reset(1024, b.rot, -1)
+	st, _ := w.svcs[0].Put(context.Background())
+	stage := ""
+	err := st.Init(initPrm(&h, &tok))
+	if err != nil {
+		stage = "init"
+	} else {
+		off := 0
+		for _, n := range c.Chunks {
+			if err = st.SendChunk(new(putsvc.PutChunkPrm).WithChunk(bytes.Clone(payload[off : off+n]))); err != nil {
+				stage = "chunk"
+				break
+			}
+			off += n
+		}
+		if err == nil {
+			if _, err = st.Close(); err != nil {
+				stage = "close"
+			}
+		}
+	}
+	r.Eval(1)
+	what := "unmutated"
+	if m != nil {
+		what = m.Name
+	}
+	if r.Replay != "" {
+		for _, s := range w.stored {
+			fmt.Printf("stored on node %d: id=%s type=%v cnr=%s sig=%v attrs=%v parent=%v children=%d payload=%d\n", s.Node, s.Obj.GetID(), s.Obj.Type(), s.Obj.GetContainerID(), s.Obj.Signature() != nil, s.Obj.Attributes(), s.Obj.Parent() != nil, len(s.Obj.Children()), len(s.Obj.Payload()))
+		}
+		fmt.Println("result:", stage, err)
+	}
+	if checkStored(w, "sealed-by-node", what, c) {
+		return
+	}
+	if m == nil {
+		if err != nil || len(w.stored) != 1 || !bytes.Equal(w.stored[0].Obj.Payload(), b.obj.Payload()) || !sameRelations(w.stored[0].Obj, b.obj) {
+			r.Fatal("vacuity guard: raw header of valid base %s chunks %v not sealed and stored with its relations intact: stage=%s err=%v stored=%d", b.Name, c.Chunks, stage, err, len(w.stored))
+		}
+		class("U:stored:valid:" + b.Name)
+		r.Nontrivial(fmt.Sprintf("U|%s|%v", b.Name, c.Chunks))
+		return
+	}
+	if len(w.stored) == 0 {
+		class("U:rejected-at-" + stage + ":" + m.Clause)
+		r.Nontrivial(fmt.Sprintf("U|%s|%s|%v", b.Name, m.Name, c.Chunks))
+		return
+	}
+	// stored and valid per reference: the mutation concerned only what the node recomputes (ID, signature, checksum)
+	// or what the session overrides (owner); it must not have survived into the stored object
+	class("U:stored:mutation-did-not-survive-sealing:" + m.Clause)
+}
+
 func run(w *world, c tcase) {
 	defer func() {
 		if p := recover(); p != nil {
@@ -586,6 +687,8 @@ func run(w *world, c tcase) {
 		runS(w, c)
 	case "T":
 		runT(w, c)
+	case "U":
+		runU(w, c)
 	}
 }
 
@@ -669,6 +772,27 @@ func main() {
 		}
 	}
 	nS := len(cases) - nR
+	// U
+	for _, b := range bases {
+		if b.signer == nil {
+			continue // EC parts are never sealed by the node on this path
+		}
+		n := len(b.obj.Payload())
+		for _, ch := range compositionsOf(n) {
+			cases = append(cases, tcase{Path: "U", Base: b.Name, Chunks: ch})
+		}
+		for i := range muts {
+			if !muts[i].applies(b) {
+				continue
+			}
+			pl := len(mutated(b, &muts[i]).Payload())
+			comps := compositionsOf(pl)
+			for _, ch := range [][]int{comps[0], comps[len(comps)-1]} {
+				cases = append(cases, tcase{Path: "U", Base: b.Name, Mutation: muts[i].Name, Chunks: ch})
+			}
+		}
+	}
+	nU := len(cases) - nR - nS
 	// T
 	type regime struct {
 		maxObj uint64
@@ -734,7 +858,7 @@ func main() {
 			}
 		}
 	}
-	nT := len(cases) - nR - nS
+	nT := len(cases) - nR - nS - nU
 
 	var notExhaustive atomic.Bool
 	var wpool = sync.Pool{New: func() any { return newWorld() }}
@@ -764,12 +888,13 @@ func main() {
 	r.Set("cases_replicate", nR)
 	r.Set("cases_stream_finished_object", nS)
 	r.Set("cases_node_side_slicing", nT)
+	r.Set("cases_raw_header_sealed_by_node", nU)
 	var bn []string
 	for _, b := range bases {
 		bn = append(bn, b.Name)
 	}
 	r.Sample(map[string]any{"bases": strings.Join(bn, ","), "example_mutations": []string{muts[0].Name, muts[len(muts)/2].Name, muts[len(muts)-1].Name}})
-	r.Rule(fmt.Sprintf("R: %d bases x every applicable mutation of a %d-entry menu (%d pairs) through ValidateAndStoreObjectLocally; S: the same pairs through Streamer Init/SendChunk/Close; when Init accepts: payload variants (exact, last byte dropped, nothing, each byte flipped, byte appended) x every composition of the streamed length (payload <= 7 bytes; 4 chunkings for the longer link payload); "+
+	r.Rule(fmt.Sprintf("R: %d bases x every applicable mutation of a %d-entry menu (%d pairs) through ValidateAndStoreObjectLocally; S: the same pairs through Streamer Init/SendChunk/Close; when Init accepts: payload variants (exact, last byte dropped, nothing, each byte flipped, byte appended) x every composition of the streamed length (payload <= 7 bytes; 4 chunkings for the longer link payload); U: every signed base and every base x mutation pair again with ID, signature and session token stripped, as a raw header on the session PUT path where node 0 seals it with the owner's session key (all chunkings for the unmutated base, single-chunk and finest chunking for mutated ones): the sealed object must keep its split relations and embedded parent header and satisfy the reference predicate at every nesting level; "+
 		"T: %d raw header kinds x %d raw mutations x regimes {max object size, payload length, candidate chunk boundaries} %v x declared size {unset,n,n-1,n+1} x every subset of the candidate boundaries as a chunking, plus node-0 storage failure at Put index 0..4 for 3 chunkings. one evaluation = one complete PUT/replicate call with the oracle applied to everything stored; non-trivial = mutated/invalid case with >1 chunk (or any R/T case) that left nothing stored, or valid case stored and reassembled", len(bases), len(muts), pairs, len(rawKinds), len(rawMuts)-1, regimes))
 	r.Exhaustive(!notExhaustive.Load())
 	r.Assume("request-level checks (ACL, session/bearer token validity and lifetime, request signatures) happen before the PUT service and are other properties' subject; a session token given with a raw header is genuine",
